@@ -252,7 +252,7 @@ func (s *EncryptionSession) In(seqNum uint32, prio bool) (
 		if prio {
 			return nil, errors.New("prio sequence handler requested key rollover")
 		}
-		s.prioSeqHandler.Reset()
+		s.prioSeqHandler.ResetIn()
 		if err := s.rolloverInKey(); err != nil {
 			return nil, fmt.Errorf("rollover in key: %w", err)
 		}
@@ -289,7 +289,7 @@ func (s *EncryptionSession) Out(prio bool) (
 		if prio {
 			return 0, 0, 0, nil, errors.New("prio sequence handler requested key rollover")
 		}
-		s.prioSeqHandler.Reset()
+		s.prioSeqHandler.ResetOut()
 		if err := s.rolloverOutKey(); err != nil {
 			return 0, 0, 0, nil, fmt.Errorf("rollover in key: %w", err)
 		}
@@ -407,6 +407,24 @@ func (sh *SequenceHandler) Reset() {
 
 	sh.highest = 0
 	sh.outSeq.Store(0)
+}
+
+// ResetOut restarts the outgoing sequence only.
+// Used for the priority sequence when the out key is rolled over: the
+// incoming side still belongs to the unchanged in key and must keep its state.
+func (sh *SequenceHandler) ResetOut() {
+	sh.outSeq.Store(0)
+}
+
+// ResetIn restarts the incoming sequence only.
+// Used for the priority sequence when the in key is rolled over: the
+// outgoing side still belongs to the unchanged out key and must not repeat
+// sequence numbers.
+func (sh *SequenceHandler) ResetIn() {
+	sh.lock.Lock()
+	defer sh.lock.Unlock()
+
+	sh.highest = 0
 }
 
 // Ack returns the highest sequence number received so far,
